@@ -370,6 +370,9 @@ def bytearray_method(it, recv, name, args, kwargs):
                              maxsplit)
         return [SByteArray(x.cs) for x in parts]
     if name == "decode":
+        opaque = getattr(it, "opaque_decode", None)
+        if opaque is not None and not all(isinstance(x, int) for x in recv.atoms):
+            return opaque(recv.atoms)  # kept as a function of the byte tuple
         return bytes_decode(it, SBytes(recv.atoms), args, kwargs)
     if name == "clear":
         recv.atoms.clear()
